@@ -234,16 +234,37 @@ type workload struct {
 	kinds []int
 }
 
+var bumpOnce sync.Once
+
+// bumpIDs burns goroutine ids so that every goroutine started afterwards - the
+// launchers in particular - has an id of several digits.
+func bumpIDs() {
+	bumpOnce.Do(func() {
+		var wg sync.WaitGroup
+		for i := 0; i < 120; i++ {
+			wg.Add(1)
+			go wg.Done()
+		}
+		wg.Wait()
+	})
+}
+
 func startWorkload(kinds []int) *workload {
+	bumpIDs()
 	c := &ctl{release: make(chan struct{}), ready: &sync.WaitGroup{}, done: &sync.WaitGroup{}}
 	c.ready.Add(len(kinds))
-	for i, k := range kinds {
-		if workKinds[k].direct {
-			workKinds[k].run(c, 1000+i)
-		} else {
-			launch(c, &workKinds[k], 1000+i)
+	started := make(chan struct{})
+	go func() { // the launcher goroutine has a multi-digit id
+		defer close(started)
+		for i, k := range kinds {
+			if workKinds[k].direct {
+				workKinds[k].run(c, 1000+i)
+			} else {
+				launch(c, &workKinds[k], 1000+i)
+			}
 		}
-	}
+	}()
+	<-started
 	c.ready.Wait()
 	settle()
 	return &workload{c, kinds}
@@ -566,8 +587,61 @@ func TestVerifC20(t *testing.T) {
 	if r.Shard == 1%r.N {
 		checkRequests(r, []int{0, 1, 2, 3, 8}, "five-goroutines")
 	}
+	if r.Shard == 3%r.N {
+		checkBigDump(r)
+	}
 	if r.Shard == 2%r.N {
 		checkRequests(r, []int{0, 0, 0, 4, 5, 6, 7, 9, 9, 10, 12, 11, 13, 11, 12}, "fifteen-goroutines")
+	}
+}
+
+// checkBigDump: a dump larger than the first 1 MiB buffer with maxmem values that
+// are not 1 MiB times a power of two.
+func checkBigDump(r *h.Run) {
+	deep := 0
+	for i, k := range workKinds {
+		if k.name == "deep-recursion" {
+			deep = i
+		}
+	}
+	var kinds []int
+	for i := 0; i < 90; i++ {
+		kinds = append(kinds, deep)
+	}
+	w := startWorkload(kinds)
+	defer w.stop()
+	size := len(liveDump())
+	r.Set("big_dump_bytes", size)
+	if size <= 1<<20 {
+		r.Note("big-dump workload produced only %d bytes; the large-buffer requests are not exercised", size)
+		return
+	}
+	for _, mem := range []int{size + size/10, size + 4096, 3 * size, 64 << 20} {
+		key := fmt.Sprintf("request GET /debug?augment=0&maxmem=%d on a %d byte dump", mem, size)
+		r.Check(func() *h.Viol {
+			req := httptest.NewRequest("GET", fmt.Sprintf("/debug?augment=0&maxmem=%d", mem), nil)
+			rec := httptest.NewRecorder()
+			nBefore := runtime.NumGoroutine()
+			SnapshotHandler(rec, req)
+			mk := func(fp, msg string) *h.Viol {
+				return &h.Viol{Fingerprint: "C20/request/big-dump:" + fp, Summary: key + ": " + msg, Key: key, Kind: "request", Observed: truncS(rec.Body.String())}
+			}
+			if rec.Code != 200 {
+				return mk(fmt.Sprintf("status-%d", rec.Code), fmt.Sprintf("status %d although maxmem is larger than the dump", rec.Code))
+			}
+			sum := 0
+			for _, mm := range reRoutines.FindAllStringSubmatch(rec.Body.String(), -1) {
+				var n int
+				fmt.Sscan(mm[1], &n)
+				sum += n
+			}
+			if sum != nBefore {
+				return mk("page-does-not-account-for-all-goroutines", fmt.Sprintf("bucket sizes add up to %d, the runtime has %d goroutines", sum, nBefore))
+			}
+			return nil
+		})
+		r.Record(key, true, "big")
+		r.Add("requests", 1)
 	}
 }
 
